@@ -19,8 +19,9 @@ CHECKS = {
     "Kernel claim only. For EVERY pair of primitive operands (undefined, null, boolean, any f64 bit pattern) the VM arms Sub, Mul, Div, "
     "Neg, Plus, Not, Lt, LtEq, Gt, GtEq, StrictEq, StrictNotEq, Eq, NotEq, the seven bitwise arms, the four conditional jumps, and "
     "JsMapKey eq/hash (SameValueZero, eq => equal hash) are executed symbolically from BytecodeVM::execute_op's MIR and shown equal to the "
-    "ECMAScript abstract operations written in SMT. No loop, no bound on values. Parser, compiler, strings, objects and the library - "
-    "the bulk of the property - are outside the claim.")),
+    "ECMAScript abstract operations written in SMT. No loop, no bound on values. The relational arms on two strings (value::js_compare) "
+    "equal lexicographic order for all byte strings of up to 3 bytes. Parser, compiler, objects and the library - the bulk of the "
+    "property - are outside the claim.")),
  'C03': dict(design='section 3, C03 (compiler-side kernels; the parser is outside)', text=(
     "Kernel claim, compiler side only. On the real MIR (BytecodeBuilder as events, other Compiler methods abstracted): "
     "compile_statement_impl on TypeAlias / InterfaceDeclaration returns Ok and emits nothing; compile_expression on TypeAssertion / "
@@ -38,7 +39,8 @@ CHECKS = {
     "Kernel claim: compiler-side panic freedom at width boundaries. Every function of src/compiler whose MIR narrows a count to u8/u16 "
     "(array literals, call arguments, template literals, tagged templates, arrow/function/constructor parameter lists, array patterns) is "
     "executed symbolically with AST vector lengths as unconstrained usize (loops abstracted to one arbitrary iteration, other Compiler "
-    "methods havoc'd): no feasible arithmetic panic and no silent truncation for ANY construct size; compile_enum_declaration never "
+    "methods havoc'd): no feasible arithmetic panic and no silent truncation for ANY construct size; RegisterAllocator::{alloc,free,"
+    "reserve_range,save,restore} never panic from any allocator state; compile_enum_declaration never "
     "panics for any numeric literal. The parser (recursion depth, speculative re-parsing), most of the lexer and 'bounded work' are "
     "outside the claim.")),
  'C20': dict(design='section 3, C20', text=(
@@ -51,8 +53,9 @@ CHECKS = {
     "Kernel claim: allocation sizes derived from script numbers. String.prototype.repeat/padStart/padEnd and the Array constructor are "
     "executed symbolically (other callees abstracted) for EVERY f64 size argument and an arbitrary short receiver: on every path the bytes "
     "or elements requested (str::repeat length x count, Vec::with_capacity, or the converted number bounding a fill loop) stay <= 2^31 or "
-    "the native returns an error first; counterexamples are replayed in a child process under a 3 GiB address-space limit (abort/timeout "
-    "versus catchable error). `new Array(n)` is a known finding. Bounded work per step, native re-entry depth, stack overflow and the "
+    "the native returns an error first, and no arithmetic-overflow panic of the size computation is feasible (ToNumber of the argument "
+    "executed for real); counterexamples are replayed in a child process (release and dev build) under a 3 GiB address-space limit "
+    "(abort/panic/timeout versus catchable error). `new Array(n)` is a known finding. Bounded work per step, native re-entry depth, stack overflow and the "
     "other natives are outside the claim.")),
  'C07': dict(design='section 3, C07', text=(
     "Kernel claim: the save/restore round trip. BytecodeVM::save_state followed by BytecodeVM::from_saved_state is executed symbolically "
@@ -62,16 +65,21 @@ CHECKS = {
     "exception_value of outer frames) - known findings, each with a program that shows the loss through the public API; any OTHER lost "
     "field is a violation. Schedules, batching and promise combinators are outside the claim.")),
  'C09': dict(design='section 3, C09', text=(
-    "Kernel claim: request canonicalisation/deduplication only. Interpreter::dedupe_import_requests on up to 3 (4) requests with symbolic "
+    "Kernel claim: request canonicalisation/deduplication and the bind-time resolution base. Interpreter::dedupe_import_requests on up to 3 (4) requests with symbolic "
     "resolved paths keeps exactly the first occurrence of each distinct path in order; Interpreter::collect_import_requests_internal on "
     "programs of up to 2 (3) import/re-export/other statements yields one request per import or re-export, in order, resolved against "
-    "resolve_base (ModulePath::resolve uninterpreted here, decided by C18) and carrying the given importer. Evaluation order, exactly-once "
-    "execution and live bindings - the larger part of the property - are outside the claim.")),
+    "resolve_base (ModulePath::resolve uninterpreted here, decided by C18) and carrying the given importer; "
+    "Interpreter::resolve_module_specifier (used when a running module body binds its imports) resolves against the module being executed "
+    "and against the entry module only when there is none. Three whole graphs (nested directories, diamond under two spellings, re-exported "
+    "live binding) are loaded through the public API under three supply orders as a replay route. Evaluation order, exactly-once "
+    "execution and live bindings in general - the larger part of the property - are outside the symbolic claim.")),
  'C16': dict(design='section 3, C16', text=(
     "Kernel claim: key canonicalisation only. For every string of up to 6 (11) bytes over {0-9,+,-,.,e,space}, PropertyKey::from_value and "
     "the three Interpreter routes (property_key, property_key_from_js_string, property_key_from_value) return Index(i) exactly for the "
     "canonical decimal spelling of i in [0,2^32-1] and otherwise String with unchanged content (no key is rewritten, keys are injective, "
-    "all routes agree); for every f64 the two number routes agree. serde_json, tree<->heap conversion, cycles and escapes are outside.")),
+    "all routes agree); for every f64 the two number routes agree; json_to_js_value_with_guard (JSON.parse / create_from_json) and "
+    "api::get_property / api::set_property build the same canonical key for every such document/host string. serde_json, the rest of "
+    "tree<->heap conversion, cycles and escapes are outside.")),
  'C08': dict(design='section 3, C08', text=(
     "Kernel claim: the ledger hand-over step. Interpreter::process_vm_result (every VmResult variant) and Interpreter::step entered with "
     "no active VM are executed symbolically on a lazily materialised Interpreter whose pending/cancelled order lists (any length), "
@@ -82,11 +90,14 @@ CHECKS = {
     "Kernel claim: terminal-step bookkeeping. Interpreter::step with an active VM (BytecodeVM::step havoc'd to any VmStepResult and any "
     "change of interpreter state except the run bookkeeping) plus finalize_active_execution/process_vm_result: after a terminal Complete "
     "or Err the environment is the one saved at prepare() and active_saved_env/active_module_env/active_module_path are cleared; a run "
-    "that can continue keeps them. Abandoned runs and unwinding inside the VM are outside the claim.")),
+    "that can continue keeps them. execute_pending_module, finalize_active_execution, abandon_active_execution and eval restore the "
+    "environment they replaced on every path to a return (a compile error after the module environment was installed is assumed away). "
+    "Abandoned runs and unwinding inside the VM are outside the claim.")),
  'C19': dict(design='section 3, C19', text=(
     "Kernel claim (relational): Interpreter::run_vm_to_completion (eval route) and Interpreter::process_vm_result (step route) executed "
     "from the same symbolic interpreter state on the same symbolic VmResult return the same Result<StepResult,_>, make the same calls with "
-    "the same arguments in the same order and leave the same ledger, on every jointly feasible path pair. Export finalisation, the C API "
+    "the same arguments in the same order and leave the same ledger, on every jointly feasible path pair; eval restores the environment "
+    "on every path like the step route does. Export finalisation, the C API "
     "and vm.run vs vm.step are outside the claim (a few concrete eval-vs-step programs are only a replay route).")),
  'C10': dict(design='section 3, C10', text=(
     "Kernel claim. (a) One operation of RegisterAllocator::{alloc,free,reserve_range,save,restore} from an ARBITRARY pre-state satisfying "
@@ -107,13 +118,18 @@ CHECKS = {
     "below len and removes exactly it, invariant re-established); the chunk*256+slot index arithmetic. History-level behaviour of Space "
     "(mark/sweep/pool/ref-counts, stale handles, dropping the heap) is NOT decided."),
     note="Trusted: Kani 0.68 / CBMC 6.11 with CaDiCaL on the code compiled by Kani's pinned toolchain; harnesses are a cfg(kani) child module of gc.rs overlaid on a scratch copy of /repo (the repository is not modified). kani::cover! witnesses must be SATISFIED (vacuity). A failing harness is reported with the Kani log as replay artefact."),
- 'C14': dict(design='section 3, C14', text=(
-    "Kernel claim: function-local env-guard balance. With every callee abstracted by assume-guarantee (arbitrary result, arbitrary data "
-    "behind &mut, no env-guard effect) and push_env_guard/pop_env_guard as events: resume_bytecode_generator and "
-    "call_bytecode_function_with_new_target are balanced on every path to any return; push_trampoline_frame_and_call_bytecode(_construct) "
-    "push a guard iff they push a frame; restore_from_trampoline_frame pops exactly one; handle_error_with_trampoline_unwind pops one per "
-    "frame popped (states merged by control location + event history). A concrete companion runs self-contained programs repeatedly and "
-    "compares live-object counts after collect(). The collector, root_guard misuse and cross-yield scope pairing are outside the claim.")),
+ 'C14': dict(design='section 9.6, C14 (rebuilt as an inductive invariant)', text=(
+    "Kernel claim: the env-guard ledger. Interpreter::env_guards is touched by push_env_guard/pop_env_guard/push_scope/pop_scope only; the "
+    "set of functions calling one of them directly is recomputed from the MIR on every run and each gets a contract, all other callees "
+    "abstracted by assume-guarantee (arbitrary result and &mut data, no effect on env_guards / vm.saved_env_stack / vm.trampoline_stack). "
+    "From an ARBITRARY VM state with symbolic vector lengths, restore_from_trampoline_frame, handle_error_with_trampoline_unwind, "
+    "push_trampoline_frame_and_call_bytecode(_construct), find_exception_handler, unwind_frame_scopes and the PushScope/PopScope arms of "
+    "execute_op preserve G == B + T + |saved_env_stack| (T = sum over trampoline frames of 1 + |frame.saved_env_stack|) on every path "
+    "(one solver query each; loops unrolled 3 times); a VM that gives up or reports Terminal(Complete) leaves no frame and no open scope; "
+    "call_bytecode_function_with_new_target, eval_code_in_scope_with_this and any new user are balanced; execute_op has no other call "
+    "site of a primitive. A concrete companion runs 16 self-contained programs repeatedly and compares live-object counts after "
+    "collect(). Generators (their saved state does not carry saved_env_stack: known finding), break/continue out of a block inside one "
+    "activation, the collector and root_guard misuse are outside the claim.")),
  'C15': dict(design='section 3, C15', text=(
     "Kernel claim. (a) ToInt32/ToUint32: the seven bitwise VM arms on every f64 bit pattern and undefined/null/boolean operands equal "
     "the ECMAScript definitions written over the IEEE-754 bit fields (complete operand domain, no bound). (b) PropertyKey::from_value on "
